@@ -274,6 +274,26 @@ func runC14Foreign(c *core.Ctx) {
 	t := c.T
 	donl := t.Chance(1, 3)
 	units := genH265Units(t, 20+t.Intn(40))
+	// accessor sampling on drawn words (the property's 2^16 / 2^8 / 2^24 spaces are sampled, not enumerated)
+	for k := 0; k < 4; k++ {
+		w := uint16(t.Draw(1 << 16))
+		h := codecs.H265NALUHeader(w)
+		fu := codecs.H265FragmentationUnitHeader(uint8(t.Draw(256)))
+		ts := codecs.H265TSCI(uint32(t.Draw(1<<24)) << 8)
+		var okh bool
+		if c.Guard("codecs.H265NALUHeader accessors", func() {
+			okh = h.F() == (w>>15 != 0) && h.Type() == uint8(w>>9&0x3F) && h.LayerID() == uint8(w>>3&0x3F) && h.TID() == uint8(w&7) &&
+				h.IsAggregationPacket() == (w>>9&0x3F == 48) && h.IsFragmentationUnit() == (w>>9&0x3F == 49) && h.IsPACIPacket() == (w>>9&0x3F == 50) &&
+				fu.S() == (fu&0x80 != 0) && fu.E() == (fu&0x40 != 0) && fu.FuType() == uint8(fu&0x3F) &&
+				ts.TL0PICIDX() == uint8(ts>>24) && ts.IrapPicID() == uint8(ts>>16) && ts.S() == (ts>>15&1 == 1) && ts.E() == (ts>>14&1 == 1) && ts.RES() == uint8(ts>>8&0x3F)
+		}) {
+			return
+		}
+		if !okh {
+			c.Violate("foreign", "C14/foreign/accessor/bit-fields", "header word %#04x / FU header %#02x / TSCI %#08x: an accessor disagrees with the RFC 7798 bit layout", w, uint8(fu), uint32(ts))
+			return
+		}
+	}
 	ps, exp := foreignH265(t, units, donl)
 	long := &codecs.H265Packet{} // a receiver with a history must decode the same values as a fresh one
 	long.WithDONL(donl)
